@@ -9,6 +9,16 @@ sys.path.insert(0, VERIF)
 from harness.core import CHECKS  # noqa
 
 TABLE = {
+    "C02": dict(
+        category="fault_enumeration", design_ref="3/C02",
+        technique="exhaustive single-fault enumeration per Hypothesis-generated JWE (bit flips of every decoded segment, length changes, header re-spellings, splices, key/sender substitution, epk edits and forged invalid-point tokens, multi-recipient faults) judged by a differential oracle (independent reference decryptor)",
+        text="For every generated base token (joserfc- or reference-minted; 21 algs x 8 encs x zip x 6 curves x 3 serializations x 1-3 recipients) all single-bit flips of the "
+             "decoded protected header, IV, ciphertext, tag, AAD and encrypted keys (sampled for RSA/ECDH/PBES2), all tag/IV truncation lengths and extensions, re-spellings of the "
+             "protected header, non-empty encrypted key in direct modes, splices, key and sender substitution, epk edits, reference-forged off-curve / small-order epk tokens and "
+             "multi-recipient faults are enumerated (~6*10^5 faulted tokens per quick run) through decrypt_compact, decrypt_json (all- and any-recipient) and jwt.decode; a returned "
+             "plaintext must be accepted by the independent decryptor with the same value. Complete per generated token; token space sampled.",
+        note="assumes AEAD/key-wrap authenticity; trusts /verif/ref/jwe.py (self-tested); different CEKs under any-recipient validation and the kty label of an unauthenticated epk are DONT_CARE",
+    ),
     "C04": dict(
         category="exploration", design_ref="3/C04",
         technique="Hypothesis-generated encryption plans, round-trip oracle (plaintext octets and header positions), must-refuse oracle for forbidden combinations",
